@@ -13,7 +13,7 @@
    (a cached year is accepted for a date iff the date is in it). *)
 From Coq Require Import List NArith ZArith QArith Qcanon Bool.
 From ACB Require Import Base.Outcome Base.QcExtra Base.Fit Base.Arith Model.Rates Model.RatesCache
-     Model.CrashFs Spec.RateRule Proofs.RatesProps Proofs.CacheProps Proofs.CrashProps.
+     Model.CrashFs Spec.RateRule Proofs.RatesProps Proofs.CacheProps Proofs.CrashProps Proofs.CrashSeq.
 Import ListNotations.
 Local Open Scope Z_scope.
 
@@ -125,3 +125,57 @@ Example C14_nonvacuous :
     tmp = map Z.to_N [50; 48; 50; 50; 45; 48; 49; 45; 48; 53; 44; 49; 46; 50] /\
     mget 18997 (parse_csv live) = Some (ex_pubval 18997).
 Proof. exact CrashProps.c14_example. Qed.
+
+(* ---- any number of writes in a row, each killed at any point or completed ----
+   [after_writes old0 tmp0 ws cur tmp] (Proofs/CrashSeq.v): the directory after
+   writing the years ws one after the other, every write starting from what the
+   one before left behind - temporary file included - and stopping at ANY of its
+   crash points (the last of which is its normal end).  cur is the year whose
+   complete content the live file holds. *)
+
+(* nothing is lost by that description: whatever a write leaves behind is a
+   directory of that form again *)
+Theorem C14_write_continues : forall cur tmp new live' tmp',
+  post_crash (rename_proc new) (fs_of cur tmp) live' tmp' ->
+  exists cur', live' = option_map render_rows cur' /\ (cur' = cur \/ cur' = Some new).
+Proof. exact CrashSeq.write_continues. Qed.
+Check C14_write_continues : forall cur tmp new live' tmp',
+  post_crash (rename_proc new) (fs_of cur tmp) live' tmp' ->
+  exists cur', live' = option_map render_rows cur' /\ (cur' = cur \/ cur' = Some new).
+Print Assumptions C14_write_continues.
+
+(* at all times the live file is the complete initial year or a complete year
+   written so far *)
+Theorem C14_live_is_a_complete_year : forall old0 tmp0 ws cur tmp,
+  after_writes old0 tmp0 ws cur tmp ->
+  cur = old0 \/ exists new, In new ws /\ cur = Some new.
+Proof. exact CrashSeq.after_writes_live. Qed.
+Check C14_live_is_a_complete_year : forall old0 tmp0 ws cur tmp,
+  after_writes old0 tmp0 ws cur tmp ->
+  cur = old0 \/ exists new, In new ws /\ cur = Some new.
+Print Assumptions C14_live_is_a_complete_year.
+
+(* hence, after ANY number of interrupted writes of correct years, every rate a
+   later run can read from the live file is the published one *)
+Theorem C14_any_number_of_interrupted_writes : forall (pubval : Z -> Qc) old0 tmp0 ws cur tmp,
+  match old0 with Some rs => Forall wf_row rs /\ consistent pubval rs | None => True end ->
+  Forall (fun new => Forall wf_row new /\ consistent pubval new) ws ->
+  after_writes old0 tmp0 ws cur tmp ->
+  forall b x v, option_map render_rows cur = Some b -> mget x (parse_csv b) = Some v -> v = pubval x.
+Proof. exact CrashSeq.any_number_of_interrupted_writes. Qed.
+Check C14_any_number_of_interrupted_writes : forall (pubval : Z -> Qc) old0 tmp0 ws cur tmp,
+  match old0 with Some rs => Forall wf_row rs /\ consistent pubval rs | None => True end ->
+  Forall (fun new => Forall wf_row new /\ consistent pubval new) ws ->
+  after_writes old0 tmp0 ws cur tmp ->
+  forall b x v, option_map render_rows cur = Some b -> mget x (parse_csv b) = Some v -> v = pubval x.
+Print Assumptions C14_any_number_of_interrupted_writes.
+
+(* Non-vacuity: a write killed after 14 bytes (they stay in the temporary
+   file), then a second write that completes: the live file is the second year *)
+Example C14_sequence_nonvacuous :
+  exists tmp1 tmp2,
+    after_writes (Some ex_new) None [ex_new; seq_new2] (Some seq_new2) tmp2 /\
+    after_writes (Some ex_new) None [ex_new] (Some ex_new) (Some tmp1) /\
+    length tmp1 = 14%nat /\
+    mget 18998 (parse_csv (render_rows seq_new2)) = Some (ex_pubval 18998).
+Proof. exact CrashSeq.seq_example. Qed.
